@@ -104,7 +104,7 @@ func scenario(seed uint64, idx int, tier string, root string) []runRes {
 		} else if strings.Contains(ans, "ERR:timeout") {
 			rr.fails = append(rr.fails, [3]string{"C01/request-never-completes", fmt.Sprintf("%s: the request does not finish (jobs started: %v): %.200s", tag, r.Jobs, r.Err), rr.line})
 		} else if ans != ref {
-			rr.fails = append(rr.fails, [3]string{"C01/strategy-changes-output/" + strings.Fields(tag)[0], fmt.Sprintf("linear (dev, empty cache): %.300s || %s: %.300s", ref, tag, ans), rr.line})
+			rr.fails = append(rr.fails, [3]string{"C01/strategy-changes-output/" + strings.Fields(tag)[0], fmt.Sprintf("linear (dev, empty cache): %.300s || %s (seg %d, final %d, jobs %v, err %.300v): %.300s", ref, tag, req.Seg, req.Final, r.Jobs, r.Err, ans), rr.line})
 		}
 		if ans == ref && raw != refRaw {
 			rr.fails = append(rr.fails, [3]string{"C01/set_sum-tag-visible-in-deltas", fmt.Sprintf("%s: a module reading the deltas of a set_sum store sees set:/sum: tags that differ from the linear run", tag), rr.line})
